@@ -87,6 +87,28 @@ def purity_obligations():
                 if isinstance(s, ast.Assign) and isinstance(s.value, (ast.Dict, ast.List, ast.Set)) or (isinstance(s, ast.Assign) and isinstance(s.value, ast.Call) and isinstance(s.value.func, ast.Name) and s.value.func.id in ('dict', 'list', 'set')):
                     shared.append((cname, ast.unparse(s)[:60]))
         out.append(B.static_obligation('C12/%s/no-class-level-mutable-state' % rp.split('/')[-1], not shared, rp, rp, str(shared), hard=False))
+    # class-level mutable state in the remaining anchored files (reference data, writers, tabulation classes, config package): a dict/list/set
+    # attribute of a class is shared by every instance in the process, i.e. by every later model and tabulation
+    done_ = {'atsim/potentials/potentialfunctions.py', 'atsim/potentials/_multi_range_potential_form.py', 'atsim/potentials/spline/__init__.py',
+             'atsim/potentials/_potential.py', 'atsim/potentials/_util.py', 'atsim/potentials/tableforms.py'}
+    for rp in ANCHORED:
+        if rp in done_: continue
+        shared = []
+        for cname, cnode in Module.get(rp).classes.items():
+            for s in cnode.body:
+                if isinstance(s, ast.Assign) and (isinstance(s.value, (ast.Dict, ast.List, ast.Set, ast.DictComp, ast.ListComp, ast.SetComp)) or
+                                                  (isinstance(s.value, ast.Call) and isinstance(s.value.func, ast.Name) and s.value.func.id in ('dict', 'list', 'set', 'OrderedDict', 'defaultdict'))):
+                    # a table that is only read is a constant; it is state when some code of the module stores into it or calls a mutating method on it
+                    names_ = {t.id for t in s.targets if isinstance(t, ast.Name)}
+                    mut_ = ('update', 'setdefault', 'append', 'extend', 'insert', 'add', 'discard', 'remove', 'pop', 'popitem', 'clear', '__setitem__', 'sort')
+                    is_tab = lambda e: isinstance(e, ast.Attribute) and e.attr in names_
+                    written = [n for n in ast.walk(Module.get(rp).tree)
+                               if (isinstance(n, ast.Subscript) and isinstance(n.ctx, (ast.Store, ast.Del)) and is_tab(n.value)) or
+                                  (isinstance(n, ast.Call) and isinstance(n.func, ast.Attribute) and n.func.attr in mut_ and is_tab(n.func.value)) or
+                                  (isinstance(n, ast.AugAssign) and is_tab(n.target))]
+                    if written: shared.append((cname, ast.unparse(s)[:60], 'written at line %d' % written[0].lineno))
+        if shared or rp.endswith('_reference_data.py'):
+            out.append(B.static_obligation('C12/%s/no-class-level-mutable-state' % '/'.join(rp.split('/')[-2:]), not shared, rp, rp, str(shared), hard=False))
     # (2) no memoising decorators / global statements in the anchored files
     deco = []
     for rp in ANCHORED: deco += [(rp.split('/')[-1],) + d for d in scan.decorators_and_globals(rp)]
